@@ -437,7 +437,7 @@ def cfgkey2name(keyid: int) -> tuple:
         # undocumented configuration database key
         # type is derived from keyID
         key = f"CFG_{hex(keyid)}"
-        typ = f"X{ubcdb.UBX_CONFIG_STORSIZE[int(hex(keyid)[2:3])]:03d}"
+        typ = f"X{ubcdb.UBX_CONFIG_STORSIZE[keyid >> 28]:03d}"
         return (key, typ)
 
     except (KeyError, ValueError) as err:
